@@ -305,8 +305,15 @@ def verify_function(contract, reg, repo=REPO):
                 raise Unsupported('contract names parameter %s which %s does not have (signature changed)'
                                   % (p, contract.qualname))
         inputs = {}
+        def shaped(name, ty):
+            n = contract.shape.get(name)
+            if n is None or not isinstance(ty, SeqT):
+                return None
+            return MList([const(ty.elem, '%s!%d' % (name, k)) for k in range(n)])
         for name, ty in contract.params.items():
-            v = MNONE if ty == NONE else const(ty, name)
+            v = shaped(name, ty)
+            if v is None:
+                v = MNONE if ty == NONE else const(ty, name)
             st.env[name] = v
             if isinstance(v, SV):
                 inputs[name] = v
@@ -321,8 +328,10 @@ def verify_function(contract, reg, repo=REPO):
                 if isinstance(v, SV):
                     inputs[name] = v
         for name, ty in contract.ghost.items():
-            st.env[name] = const(ty, name)
-            inputs[name] = st.env[name]
+            v = shaped(name, ty)
+            st.env[name] = v if v is not None else const(ty, name)
+            if isinstance(st.env[name], SV):
+                inputs[name] = st.env[name]
         V.inputs = inputs
         for r in contract.requires:
             st.assume(V.eval_spec_bool(r, st))
